@@ -455,6 +455,11 @@ func c17Command(rc *RunCtx, t *simrt.Tape) {
 	if !viaStdin && decoderSilent(codec, data) {
 		dec = "decoder-silent"
 	}
+	if viaStdin && codec == 5 && kind == fkFlip && (memberBoundary(fc.Text, k) || memberBoundary(fc.Text, k-1)) {
+		// a damaged magic number of a member after the first: what follows a complete member
+		// and does not begin with 1f 8b is trailing garbage for zlib
+		dec = "decoder-silent-zlib"
+	}
 	if viaStdin && codec == 5 && kind == fkTruncate && memberBoundary(fc.Text, k-1) {
 		// one byte of the next member's header after a complete member: zlib (the decoder of
 		// standard input) cannot recognise a header in a single byte and, as documented for
